@@ -126,17 +126,35 @@ def run(ctx):
     fi, paths = own_method_paths(ctx, "Transformed", "_sizeof")
     da, ea = N.selfattr("decodeamount"), N.selfattr("encodeamount")
     rets = [p for p in paths if p.returns]
-    ok = bool(rets) and all(p.retval == ea and N.mk_cmp("==", da, ea) in p.guards() for p in rets)
+    def _flat(p):
+        out = set()
+        for c in p.guards():
+            out |= set(c[2]) if c[0] == "bool" and c[1] == "and" else {c}
+        return out
+    ok = bool(rets) and all(p.retval in (ea, da) and N.mk_cmp("==", da, ea) in _flat(p) for p in rets)
     ctx.ob("C05.R2", fi, ok, "Transformed._sizeof answers encodeamount only when it equals decodeamount", key="Transformed sizeof")
     fi, paths = own_method_paths(ctx, "Transformed", "_parse")
     reads = [e for p in paths for e in p.events if e.kind == "READ"]
     ctx.ob("C05.R2", fi, bool(reads) and all(e["length"] == da and e["stream"] == STREAM for e in reads), "Transformed._parse reads exactly decodeamount bytes", key="Transformed parse")
     fi, paths = own_method_paths(ctx, "Transformed", "_build")
-    rets = [p for p in paths if p.returns and ("call", ("free", "isinstance"), (ea, ("free", "int")), ()) in p.guards()]
+    # whatever the test for "an amount was given" (isinstance int, is not None): a returning path either established len(data) == encodeamount
+    # or runs under a guard saying that no amount was given
+    isint = ("call", ("free", "isinstance"), (ea, ("free", "int")), ())
+    nogiven = {N.mk_not(isint), N.mk_cmp("is", ea, N.NONE), ("call", ("free", "isinstance"), (ea, ("call", ("free", "type"), (N.NONE,), ())), ())}
+    rets = [p for p in paths if p.returns]
     ok = bool(rets)
+    nfix = 0
     for p in rets:
         w = [e for e in p.events if e.kind == "WRITE" and e["stream"] == STREAM]
-        ok = ok and len(w) == 1 and N.mk_cmp("==", w[0]["length"], ea) in p.guards()
+        g = set()
+        for c in p.guards():
+            g |= set(c[2]) if c[0] == "bool" and c[1] == "and" else {c}
+        eq = N.mk_cmp("==", w[0]["length"], ea) if len(w) == 1 else None
+        fixed = eq is not None and eq in g
+        either = eq is not None and any(c[0] == "bool" and c[1] == "or" and eq in c[2] and set(c[2]) - {eq} <= nogiven for c in g)     # "none given, or it fits"
+        nfix += fixed or either
+        ok = ok and len(w) == 1 and (fixed or either or bool(g & nogiven))
+    ok = ok and nfix >= 1
     ctx.ob("C05.R2", fi, ok, "Transformed._build writes exactly encodeamount bytes when it is an integer (else StreamError)", key="Transformed build")
     # RestreamData (parse side documented asymmetric, frozen above): building emits nothing, and that is what _sizeof must answer
     fi, paths = own_method_paths(ctx, "RestreamData", "_sizeof")
